@@ -233,13 +233,34 @@ pub fn run_proc(plan: &ProcPlan, verif: &str) -> ProcRecord {
             // stderr may mention the scratch root only through absolute paths,
             // which jobs do not use; normalise anyway so records compare
             // across scratch locations
-            rec.stderr = replace_bytes(&rec.stderr, root.as_bytes(), b"<root>");
+            rec.stderr = strip_thread_ids(&replace_bytes(&rec.stderr, root.as_bytes(), b"<root>"));
             rec.stdout = replace_bytes(&rec.stdout, root.as_bytes(), b"<root>");
         }
     }
     let _ = std::fs::remove_dir_all(&root);
     let _ = std::fs::remove_file(&log);
     rec
+}
+
+/// Rust's panic / stack-overflow messages carry the OS thread id
+/// ("thread 'main' (15506) panicked"): not part of the program's behaviour.
+fn strip_thread_ids(data: &[u8]) -> Vec<u8> {
+    let text = String::from_utf8_lossy(data).to_string();
+    let mut out = String::new();
+    let mut rest = text.as_str();
+    while let Some(i) = rest.find("' (") {
+        let (head, tail) = rest.split_at(i + 3);
+        out.push_str(head);
+        let digits: usize = tail.chars().take_while(|c| c.is_ascii_digit()).count();
+        if digits > 0 && tail[digits..].starts_with(')') && head.contains("thread '") {
+            out.push_str("tid");
+            rest = &tail[digits..];
+        } else {
+            rest = tail;
+        }
+    }
+    out.push_str(rest);
+    out.into_bytes()
 }
 
 fn replace_bytes(hay: &[u8], needle: &[u8], with: &[u8]) -> Vec<u8> {
@@ -298,7 +319,7 @@ pub fn worker_main(chan: &Channel, a: WorkerArgs) {
     let mut i = a.from;
     while i < a.to {
         chan.send(&format!("{{\"t\":\"begin\",\"run\":{}}}", i));
-        let mut ctx = Ctx { chan, prop: a.prop.clone(), seed: a.seed, run: i, run_seed: run_seed(a.seed, &format!("{}-proc", a.prop), i), step: 0, tier: a.tier.clone(), dump: a.dump.clone(), stats: Stats::default(), digest: 0, verif: a.verif.clone() };
+        let mut ctx = Ctx { chan, prop: a.prop.clone(), seed: a.seed, run: i, run_seed: run_seed(a.seed, &format!("{}-proc", a.prop), i), step: 0, tier: a.tier.clone(), dump: a.dump.clone(), stats: Stats::default(), digest: 0, verif: a.verif.clone(), pending_c14: None };
         let violations: Vec<Replay> = match a.prop.as_str() {
             "C03" => crate::c03::run_proc(&mut ctx, &corpus, &a.verif),
             "C10" => crate::c10::run_proc(&mut ctx, &corpus, &a.verif),
